@@ -8,11 +8,15 @@ import Vgw.Driver.Policy
 import Vgw.Driver.BucketName
 import Vgw.Driver.Path
 import Vgw.Driver.Walk
+import Vgw.Driver.IAM
+import Vgw.Driver.Robust
+import Vgw.Driver.Crash
 import Vgw.Driver.Race
 import Vgw.Driver.Chunk
 
 structure DriverState where
   gw : Vgw.Driver.Gw.DState := {}
+  iam : Vgw.Driver.IAM.DState := {}
 
 def dispatch (d : DriverState) (line : String) : DriverState × String :=
   match (line.trimAscii.toString.splitOn " ").filter (· ≠ "") with
@@ -24,6 +28,11 @@ def dispatch (d : DriverState) (line : String) : DriverState × String :=
   | "walk" :: rest => (d, (Vgw.Driver.Walk.handle rest).getD "bad-op")
   | "chunk" :: rest => (d, (Vgw.Driver.Chunk.handle rest).getD "bad-op")
   | "race" :: rest => (d, (Vgw.Driver.Race.handle rest).getD "bad-op")
+  | "crash" :: rest => (d, (Vgw.Driver.Crash.handle rest).getD "bad-op")
+  | "iam" :: rest =>
+    let (g, out) := Vgw.Driver.IAM.handle d.iam rest
+    ({ d with iam := g }, out.getD "bad-op")
+  | "robust" :: rest => (d, (Vgw.Driver.Robust.handle rest).getD "bad-op")
   | "bucketname" :: rest => (d, (Vgw.Driver.BucketName.handle rest).getD "bad-op")
   | "glob" :: rest => (d, (Vgw.Driver.Policy.globHandle rest).getD "bad-op")
   | "policy" :: rest => (d, (Vgw.Driver.Policy.handle rest).getD "bad-op")
